@@ -131,6 +131,13 @@ def is_variable_update(value):
         or MULTI_UPDATE_KEY in value)
 
 
+def copy_dicts(value):
+    """Copy the nested dictionaries of an update, sharing its leaf values."""
+    if isinstance(value, dict):
+        return {k: copy_dicts(v) for k, v in value.items()}
+    return value
+
+
 def merge_variable_updates(current, update):
     """Combine two updates for the same node: updates of one variable
     that name their value or updater are kept whole, side by side."""
@@ -165,7 +172,9 @@ def deep_merge_multi_update(dct, merge_dct):
                     '_multi_update': [
                         dct[k], merge_dct[k]]}
         else:
-            dct[k] = merge_dct[k]
+            # do not share dictionaries with the update that is merged
+            # in: later merges would modify the caller's update
+            dct[k] = copy_dicts(merge_dct[k])
     return dct
 
 
